@@ -33,7 +33,13 @@ const (
 	TargetGRB      = 3
 	// TargetJSONTranslate runs only the JSON -> GRL translation (JSONResource.Load), without building
 	TargetJSONTranslate = 4
+	// TargetGRBThenGRL loads a binary stream and, when that succeeds, hands the knowledge base on to the
+	// GRL loader (an ordinary rule is built into it) and to NewKnowledgeBaseInstance; only used with
+	// valid streams
+	TargetGRBThenGRL = 5
 )
+
+const handOverRule = `rule ZZHandOver "built after the load" salience 3 { when F.I64 > 1 && F.S == "x" then F.I64 = F.I64 + 1; Retract("ZZHandOver"); }`
 
 func run(target byte, data []byte) (status, detail string) {
 	defer func() {
@@ -77,6 +83,19 @@ func run(target byte, data []byte) (status, detail string) {
 		dc := ast.NewDataContext()
 		if err := dc.AddJSON("J", data); err != nil {
 			return "error", "json"
+		}
+		return "ok", ""
+	case TargetGRBThenGRL:
+		lib := ast.NewKnowledgeLibrary()
+		kb, err := lib.LoadKnowledgeBaseFromReader(bytes.NewReader(data), true)
+		if err != nil {
+			return "error", "load"
+		}
+		if err := builder.NewRuleBuilder(lib).BuildRuleFromResource(kb.Name, kb.Version, pkg.NewBytesResource([]byte(handOverRule))); err != nil {
+			return "error", "build-after-load"
+		}
+		if _, err := lib.NewKnowledgeBaseInstance(kb.Name, kb.Version); err != nil {
+			return "error", "instance-after-load"
 		}
 		return "ok", ""
 	case TargetGRB:
